@@ -313,6 +313,9 @@ impl ObjectModel<VerifVM> for VerifVM {
         let align = 1usize << obj_log_align(from);
         let dst = copy_context.alloc_copy(from, bytes, align, 0, semantics);
         assert!(!dst.is_zero(), "alloc_copy returned null");
+        if let Some(f) = COPY_ORACLE.get() {
+            f(from.to_raw_address().as_usize(), dst.as_usize(), bytes);
+        }
         // the GC header word belongs to MMTk: the copy starts with a clean one
         unsafe {
             std::ptr::copy_nonoverlapping((obj_start(from) + 8usize).to_ptr::<u8>(), (dst + 8usize).to_mut_ptr::<u8>(), bytes - 8);
@@ -385,6 +388,9 @@ impl ObjectModel<VerifVM> for VerifVM {
 }
 
 pub static COPY_COUNT: AtomicUsize = AtomicUsize::new(0);
+/// Optional oracle (C34) called by `ObjectModel::copy` with (from, to, bytes) right after the
+/// destination has been allocated and before anything is written to it.  Unset = no effect.
+pub static COPY_ORACLE: OnceLock<Box<dyn Fn(usize, usize, usize) + Send + Sync>> = OnceLock::new();
 pub static RECORD_COPIES: AtomicBool = AtomicBool::new(false);
 
 // ---------------------------------------------------------------------------------------------
